@@ -10,13 +10,13 @@ from values import fmt
 
 EXPLANATION = """
 (1) The signal handler is installed, with its result checked, on every path before any thread is spawned; ctrlc is built with the `termination` feature
-(Cargo.toml), so SIGTERM is covered as well as SIGINT.  (2) The handler's only effect is an atomic store of `false` to KEEP_RUNNING (async-signal-safe, so every
-delivery instant is equivalent); each worker loads the same static after every process_events call and leaves its loop on false; the reporter loads it as its loop
+(Cargo.toml), so SIGTERM is covered as well as SIGINT.  (2) Every path through the handler stores `false` into KEEP_RUNNING and the handler reaches no lock, wait, sleep, socket, process exit or
+panic site (ctrlc runs it on its own thread, so logging there is allowed; every delivery instant is equivalent); each worker loads the same static after every process_events call and leaves its loop on false; the reporter loads it as its loop
 condition (the parameter is bound to KEEP_RUNNING at the only call site).  (3) process_events returns when idle: the poll timeout is Some(constant <= 1 s).
 (4) One reporter iteration is bounded by a constant sleep.  (5) After all joins main calls process::exit(0), and no other exit status is reachable after the spawn loop.
 (6) Every loop reachable from a thread entry is classified from the CFG and the provenance of its exit conditions: iteration over a finite collection/range,
 computation over in-memory values, or dependent on a socket / queue / random source; loops of the last kind must load the flag in every iteration (or carry an
-audited reason).  The receive loop inside process_events depends on the socket and does not read the flag: known finding K1.
+audited reason); since the K1 repair process_events handles one batch per readiness event and has no input-driven inner loop.
 A response leaves the process in a single send_to of a completely built buffer and the flag is never read inside send_responses, so every response emitted before exit is complete.
 """
 NOT_DECIDED = "time-to-exit as a duration (timing); OS signal delivery"
@@ -81,15 +81,31 @@ def run(ctx):
     hev = W.ev(h.path)
     calls = [(bb, strip_generics(t["fn"].get("path", ""))) for bb, t in h.calls()]
     stores = [(bb, p) for bb, p in calls if p.endswith("::store") and "atomic" in p]
-    others = [p for bb, p in calls if not (p.endswith("::store") or values.is_transparent(p) or "deref" in p)]
-    oks = len(stores) == 1 and not others
-    if oks:
-        a = hev.call_args(stores[0][0])
-        oks = (values.contains(a[0], lambda s: s == ("static", FLAG)) or a[0] == ("static", FLAG)) and a[1] == ("int", 0)
-    ctx.check("handler-effect", "only-stores-false-to-flag", oks, "the handler only stores false into KEEP_RUNNING", "signal handler does more than clearing the flag: %s" % [p for bb, p in calls], ctx.loc(h))
+    # ctrlc runs the handler on a thread of its own (not in signal context): logging there is harmless.  What matters is that the store happens
+    # on every path and that nothing before or around it can block, terminate the process abruptly or panic.
+    good = []
+    for bb, p in stores:
+        a = hev.call_args(bb)
+        if (values.contains(a[0], lambda s: s == ("static", FLAG)) or a[0] == ("static", FLAG)) and a[1] == ("int", 0):
+            good.append(bb)
+    rets = [bl.idx for bl in h.blocks if bl.term["k"] == "return"]
+    oks = bool(good) and (not rets or values.must_pass(h, good, from_block=0, to_blocks=set(rets)))
+    bad_stores = [bb for bb, p in stores if bb not in good]
+    ctx.check("handler-effect", "stores-false-to-flag-on-every-path", oks and not bad_stores, "every path through the handler stores false into KEEP_RUNNING",
+              "the signal handler can return without clearing KEEP_RUNNING (or stores something else)", ctx.loc(h))
     reach_h, ext_h, _ = P.reach([h.path])
-    unsafe_in_handler = [e for e in ext_h if any(x in e for x in ("alloc::", "std::io", "log::", "Mutex", "println", "_print"))]
-    ctx.check("handler-effect", "async-signal-safe", not unsafe_in_handler, "the handler reaches no allocation, I/O, logging or locking", "handler reaches %s" % unsafe_in_handler[:3], ctx.loc(h))
+    BLOCKING = ("Mutex", "RwLock", "Condvar", "thread::sleep", "::join", "::recv", "process::exit", "process::abort", "panic", "::unwrap", "::expect",
+                "TcpStream", "UdpSocket", "::wait", "park")
+    risky = sorted({e for e in ext_h if any(x in e for x in BLOCKING) and not e.startswith("log::") and "fmt" not in e})
+    for f in reach_h:
+        fn_ = P.fns.get(f)
+        if fn_ is None:
+            continue
+        for bl in fn_.blocks:
+            if bl.term["k"] == "assert" and bl.idx in fn_.reachable():
+                risky.append("%s: runtime assertion" % f)
+    ctx.check("handler-effect", "nothing-blocks-or-aborts-in-the-handler", not risky, "the handler reaches no lock, wait, sleep, socket, exit or panic site",
+              "the signal handler reaches %s" % risky[:4], ctx.loc(h))
 
     # thread entries
     entries = []
